@@ -1230,6 +1230,13 @@ theorem removalGuard_single_target_binding (s : AssignStmt) (u : String)
         intro a ha
         simp [TargetList.binds, Target.binds] at ha
 
+/-- **Tie to the live guard (since 21e29d0).** What the regenerated guard accepts contains no `:=`. -/
+theorem removalGuard_no_value_binds (s : AssignStmt) (u : String) (hg : Gen.removalGuard s u = true) :
+    s.valueBinds = [] := by
+  unfold Gen.removalGuard at hg
+  simp only [Bool.and_eq_true, Bool.not_eq_true', Bool.not_eq_false', List.isEmpty_iff] at hg
+  exact hg.2
+
 theorem undefReads_congr : ∀ (p : List Stmt) (e1 e2 : List String), (∀ x, e1.contains x = e2.contains x) →
     undefReads e1 p = undefReads e2 p := by
   intro p
